@@ -68,7 +68,8 @@ def run(rep):
         if r.violated is None:
             raise tlc.MachineryError(f"deviation {d} does not violate C09 in the module")
     # conformance
-    families = ["c09small", "c09four", "mixed"] if quick else ["c09small", "c09never", "mixed"]
+    # c09quick = c09small + c09four + mixed, c09thorough = c09small + c09never + mixed (MC_LoaderResolve.tla)
+    families = ["c09quick"] if quick else ["c09thorough"]
     stats = R.conformance(rep, families, "set", devs, _nontrivial, 300 if quick else 4000, rng,
                           dict(max_files=3, max_refs=9, max_sched=2, p_dep=0.3, p_never=0.1, p_unknown=0.03))
     rep.exhaustive = True
